@@ -190,6 +190,9 @@ impl Builder {
 
             let f = f.clone();
 
+            #[cfg(feature = "verif-hooks")]
+            rt::verif::iteration(rt::verif::Phase::Start, i, &execution);
+
             scheduler.run(&mut execution, move || {
                 f();
 
@@ -202,6 +205,9 @@ impl Builder {
             });
 
             execution.check_for_leaks();
+
+            #[cfg(feature = "verif-hooks")]
+            rt::verif::iteration(rt::verif::Phase::End, i, &execution);
 
             i += 1;
 
